@@ -311,7 +311,7 @@ func (p *polling) DoWrite(ctx *types.HttpContext, data types.BufferInterface, op
 		return
 	}
 
-	encoding := utils.Contains(ctx.Headers().Peek("Accept-Encoding"), []string{"gzip", "deflate", "br", "zstd"})
+	encoding := acceptedEncoding(ctx.Headers().Peek("Accept-Encoding"), []string{"gzip", "deflate", "br", "zstd"})
 	if encoding == "" {
 		respond(data, strconv.Itoa(data.Len()))
 		return
@@ -329,6 +329,38 @@ func (p *polling) DoWrite(ctx *types.HttpContext, data types.BufferInterface, op
 
 	headers.Set("Content-Encoding", encoding)
 	respond(buf, strconv.Itoa(buf.Len()))
+}
+
+// acceptedEncoding returns the first of the supported codings that the
+// Accept-Encoding header names as a token (case-insensitively, not as a
+// substring of another token) with a non-zero quality value.
+func acceptedEncoding(header string, supported []string) string {
+	named := map[string]bool{}
+	for _, part := range strings.Split(header, ",") {
+		params := strings.Split(part, ";")
+		name := strings.ToLower(strings.TrimSpace(params[0]))
+		if name == "" {
+			continue
+		}
+		refused := false
+		for _, param := range params[1:] {
+			kv := strings.SplitN(strings.TrimSpace(param), "=", 2)
+			if len(kv) == 2 && strings.EqualFold(strings.TrimSpace(kv[0]), "q") {
+				if q, err := strconv.ParseFloat(strings.TrimSpace(kv[1]), 64); err == nil && q == 0 {
+					refused = true
+				}
+			}
+		}
+		if !refused {
+			named[name] = true
+		}
+	}
+	for _, coding := range supported {
+		if named[coding] {
+			return coding
+		}
+	}
+	return ""
 }
 
 // Compresses data.
